@@ -185,6 +185,21 @@ func c02Loc(r *Run, l gts.Location, i, n int) {
 				Got: encLoc(got) + " den=" + denStr(g), Want: "den\\guest=" + denStr(want),
 				Guard: fmt.Sprintf("k2.expand %s %d %d", ls, i, n)})
 		}
+		// the un-stripped clause (audit S6; theorem expand_embed_den_partial): the guest residues
+		// [i, i+n) are denoted exactly inside the leaves that span i, in strand order, where Insert
+		// would split — a leaf that merely ends or starts at i gets none of them
+		if n >= 0 {
+			exact := embedDen(l, i, n)
+			r.count("expand/exact/" + kindOf(l))
+			if len(exact) != len(want) {
+				r.count("expand/exact/spanning")
+			}
+			if !sameMeaning(g, exact) {
+				r.fail(Failure{Oracle: "expand(n>=0): host image with the guest block inside exactly the parts that span i", Op: line,
+					Got: encLoc(got) + " den=" + denStr(g), Want: "den=" + denStr(exact),
+					Guard: fmt.Sprintf("k2.expand %s %d %d", ls, i, n)})
+			}
+		}
 	} else {
 		r.fail(Failure{Oracle: "expand: no panic", Op: line, Got: out})
 	}
@@ -293,22 +308,18 @@ func propC02(r *Run) {
 			}
 			// every host feature denotes its re-mapped residues, every guest feature its residues offset by i
 			gn := len(guest.Bytes())
-			strip := func(d []pos) []pos { return d }
+			// Embed is compared UN-STRIPPED (audit S6; theorem embed_host_feature_exact_partial): a host
+			// feature's new location denotes embedDen = the insert image plus the guest block inside
+			// exactly the parts that spanned i
+			hostImage := func(l gts.Location, d []pos) []pos { return mapDen(d, insMap(i, gn)) }
 			if opn == "seq.embed" {
-				strip = func(d []pos) []pos {
-					var out []pos
-					for _, p := range d {
-						if p.x < i || p.x >= i+gn {
-							out = append(out, p)
-						}
-					}
-					return out
-				}
+				hostImage = func(l gts.Location, d []pos) []pos { return embedDen(l, i, gn) }
 			}
 			wantF := map[string]int{}
 			for _, f := range host.Features() {
 				if d := den(f.Loc); lawApplies(f.Loc, d) {
-					wantF["h|"+featKey(f)+denStr(mapDen(d, insMap(i, gn)))]++
+					wantF["h|"+featKey(f)+denStr(hostImage(f.Loc, d))]++
+					r.count(opn + "/host feature law evaluated")
 				}
 			}
 			for _, f := range guest.Features() {
@@ -318,7 +329,7 @@ func propC02(r *Run) {
 			}
 			for _, f := range res.Features() {
 				d := den(f.Loc)
-				wantF["h|"+featKey(f)+denStr(strip(d))]--
+				wantF["h|"+featKey(f)+denStr(d)]--
 				wantF["g|"+featKey(f)+denStr(d)]--
 			}
 			for k, v := range wantF {
